@@ -46,6 +46,13 @@ def fam_wiring(seed, big):
             sc3 = dict(sc, id=sc["id"] + "-thr", thread=True, repeat=rng.choice([1, 2]))
             out.append(sc3)
         out.append(sc)
+    # the parent re-points its own stdout / stderr between two launches from the same thread
+    for (which, b, c) in ((1, "none", "merge"), (2, "merge", "none"), (1, "none", "none"), (2, "none", "none"),
+                          (1, "none", "pipe"), (2, "pipe", "merge")):
+        for thr in (False, True):
+            out.append({"id": "w-repoint%d-%s-%s%s" % (which, b, c, "-thr" if thr else ""), "class": "wiring-repoint",
+                        "argv": vargv(), "stdin": "none", "stdout": b, "stderr": c, "repeat": 3, "repoint": which,
+                        "thread": thr})
     # one file shared by several streams
     shared = [("none", "rc:S", "rc:S"), ("rc:S", "rc:S", "rc:S"), ("none", "dup:S", "dup:S"), ("dup:S", "pipe", "dup:S"),
               ("rc:S", "merge", "rc:S"), ("none", "rc:S", "merge"), ("none", "merge", "dup:S"), ("file:a", "file:a", "merge"),
